@@ -273,8 +273,8 @@ theorem translateCoord_text (k : Spec.Corner) (hg : k.InGrid) (hne : k.col.isSom
     simp only [toCorner, Option.map] at this
     simp [Spec.trCorner, Spec.trOpt, px, py, Option.join, this]
 
-def refTok (r : Spec.CRef) : Tok := ⟨r.text, .operand, .range⟩
-def refErrTok : Tok := ⟨['#', 'R', 'E', 'F', '!'], .operand, .error⟩
+def refTok (r : Spec.CRef) : Tok := ⟨r.text, .operand, .range, .none⟩
+def refErrTok : Tok := ⟨['#', 'R', 'E', 'F', '!'], .operand, .error, .none⟩
 
 /-- the token a reference becomes: itself with a new area, or the `#REF!` error literal -/
 def tokOfRef (r : Spec.CRef) (a : Option Spec.Area) : Tok :=
@@ -643,8 +643,8 @@ theorem clamp_pos (x y at_ n : Nat) (hx : 1 ≤ x) (hxy : x ≤ y)
 
 def exprTok : Spec.Expr → Tok
   | .ref r => refTok r
-  | .err e => ⟨e.text, .operand, .error⟩
-  | _ => ⟨[], .unknown, .nothing⟩
+  | .err e => ⟨e.text, .operand, .error, .none⟩
+  | _ => ⟨[], .unknown, .nothing, .none⟩
 
 theorem exprTok_refOr (r : Spec.CRef) (o : Option Spec.Area) : exprTok (Spec.refOr r o) = tokOfRef r o := by
   cases o <;> rfl
